@@ -338,6 +338,8 @@ def env_recipes(ctx: Ctx, rng: Rng, truth: bool = False) -> List[dict]:
         # one recipe in five runs under the process-wide override `NetworkInterface.nmne_config = NMNEConfig(...)` (restored afterwards)
         kw.setdefault("nmne_override", rig.gen_nmne_settings(rng) if rng.chance(1, 5) else None)
         kw.setdefault("targeted", bool(truth))  # ground-truth runs: events inside the tick aimed at the counted leaves
+        # scripted "make every observed leaf non-default, THEN take the component away" (power off / delete / uninstall), see obs_env.saturate
+        kw.setdefault("takeaway", bool(truth) and kw.get("steps", steps) >= 14)
         out.append(dict({"family": family, "label": label, "traj_seed": rng.next(), "variant_seed": rng.next(), "episodes": eps, "steps": steps,
                          "truth": truth, "chaos": False}, **kw))
     for rel in scen:
